@@ -538,5 +538,119 @@ def renderStore (orc : Oracle) (includeDefault : Bool) (decls : List Decl) : Out
     " ".intercalate (("ok" :: renderStoreOpts (applySets orc includeDefault decls (initStore orc decls) a.sets)
       firstUserId decls) ++ ("|" :: a.rest.map hexOf))
 
+/-! ### `loadArgsFromFile` (cmdline.go:258-275) on the bytes of a file
+
+`os.Open`, then `bufio.NewScanner(file)` with the default split function and the default buffer, then `scanner.Err()`.
+The scanner's buffer grows to `bufio.MaxScanTokenSize` = 64 KiB and no further: a line whose bytes up to the next `\n`
+(or up to the end of the file) fill the whole buffer makes `Scan` stop with `ErrTooLong`, which `loadArgsFromFile`
+returns and `Parse` turns into the fatal exit.  (Without the `scanner.Err()` test the lines read so far would be
+used and the rest of the file silently dropped.) -/
+
+/-- `bufio.MaxScanTokenSize` -/
+def maxToken : Nat := 65536
+
+/-- `n` = bytes of the current line seen so far; true iff some line reaches `maxToken` bytes before its `\n` / the end -/
+def tooLongAux : Str → Nat → Bool
+  | [], n => decide (maxToken ≤ n)
+  | c :: t, n => if c = 10 then (if maxToken ≤ n then true else tooLongAux t 0) else tooLongAux t (n + 1)
+
+def tooLong (content : Str) : Bool := tooLongAux content 0
+
+/-- the result of `loadArgsFromFile` for a file that can be opened and read: `none` = an error is returned -/
+def readFile (content : Str) : Option (List Str) := if tooLong content then none else some (linesOf content)
+
+/-- what the scanner that does not look at `scanner.Err()` would hand to `Parse`: the lines in front of the first line
+    that is too long (CONTRAST; `Cmd.readFile` returns the error instead) -/
+def readFileNoErrAux : Str → Str → Nat → List Str
+  | [], cur, n => if maxToken ≤ n then [] else (if cur = [] then [] else [dropCR cur.reverse])
+  | c :: t, cur, n =>
+    if c = 10 then (if maxToken ≤ n then [] else dropCR cur.reverse :: readFileNoErrAux t [] 0)
+    else readFileNoErrAux t (c :: cur) (n + 1)
+
+def readFileNoErr (content : Str) : List Str := readFileNoErrAux content [] 0
+
+/-- the response files of one run from their bytes on disk: a file `loadArgsFromFile` fails on is like a missing one -/
+def filesOf (raw : List (Str × Option Str)) : Files :=
+  raw.filterMap (fun e => match e.2 with
+    | some content => (readFile content).map (fun ls => (e.1, ls))
+    | none => none)
 
 end Cmd
+
+/-! ## `atexit` (atexit/atexit.go): the registry of exit functions and `Exit`
+
+Functions are identified by a number (what the harness prints when the function runs).  `Register` appends a pair
+(id, function) and hands out `nextID`; `Unregister` deletes the pairs with that id; `Exit` — unless an exit is already
+in progress — takes a snapshot of the registered functions and runs them last-registered first, each inside
+`errs.Recovery` (so a panic of one of them, which includes the panic of a recursive `Exit`, does not stop the others),
+then ends the process with the status of the FIRST `Exit`. -/
+namespace AtExit
+
+structure St where
+  pairs : List (Nat × Nat) := []     -- (id, function) in registration order
+  nextID : Nat := 1
+  exiting : Bool := false
+deriving Repr
+
+/-- `Register(f)`: the new state and the returned id -/
+def register (s : St) (f : Nat) : St × Nat :=
+  ({ s with pairs := s.pairs ++ [(s.nextID, f)], nextID := s.nextID + 1 }, s.nextID)
+
+/-- `Unregister(id)` (`slices.DeleteFunc(pairs, p.id == id)`) -/
+def unregister (s : St) (id : Nat) : St := { s with pairs := s.pairs.filter (fun p => p.1 != id) }
+
+/-- what a registered function does when it runs (besides announcing itself) -/
+inductive Act
+  | plain
+  | panic                 -- panics (string, error, runtime error …): recovered by `run`
+  | reExit                -- calls `atexit.Exit` again: recursive, panics, recovered
+  | reg (f : Nat)         -- registers another function
+  | unreg (k : Nat)       -- unregisters the function registered k-th (0-based ordinal)
+deriving Repr, DecidableEq
+
+/-- the effect of a running exit function on the registry (the snapshot taken by `Exit` is not touched) -/
+def effect (ids : List Nat) (s : St) : Act → St
+  | .reg f => (register s f).1
+  | .unreg k => (match ids[k]? with | some id => unregister s id | none => s)
+  | _ => s
+
+/-- the loop `for i := len(f) - 1; i >= 0; i-- { run(f[i]) }` over the snapshot (given last-registered first): the log
+    of functions run -/
+def runAll (acts : Nat → Act) (ids : List Nat) : St → List Nat → List Nat
+  | _, [] => []
+  | s, f :: fs => f :: runAll acts ids (effect ids s (acts f)) fs
+
+/-- `Exit(status)`: the functions run, in order, and the exit status; `none` when an exit is already in progress (the
+    call then never returns and runs nothing) -/
+def exit (acts : Nat → Act) (ids : List Nat) (s : St) (status : Nat) : Option (List Nat × Nat) :=
+  if s.exiting then none
+  else some (runAll acts ids { s with exiting := true } (s.pairs.map (·.2)).reverse, status)
+
+/-- a history of `Register` / `Unregister` calls before `Exit`; `unreg k` names the id returned by the k-th `Register`
+    (an ordinal that has not been handed out names an id that was never returned: nothing happens) -/
+inductive Op
+  | reg (f : Nat)
+  | unreg (k : Nat)
+deriving Repr, DecidableEq
+
+/-- state and the ids handed out so far, in order -/
+def applyOp (p : St × List Nat) : Op → St × List Nat
+  | .reg f => ((register p.1 f).1, p.2 ++ [(register p.1 f).2])
+  | .unreg k => (match p.2[k]? with | some id => (unregister p.1 id, p.2) | none => p)
+
+def applyOps (ops : List Op) : St × List Nat := ops.foldl applyOp ({}, [])
+
+/-- the whole observable behaviour of one process: the history, then `Exit(status)` -/
+def runHistory (acts : Nat → Act) (ops : List Op) (status : Nat) : Option (List Nat × Nat) :=
+  exit acts (applyOps ops).2 (applyOps ops).1 status
+
+/-- CONTRAST: an `Exit` that walks the live registry instead of a snapshot — a function unregistered by an earlier exit
+    function would be skipped -/
+def exitLive (acts : Nat → Act) (ids : List Nat) : Nat → St → List Nat
+  | 0, _ => []
+  | fuel + 1, s =>
+    match s.pairs.getLast? with
+    | none => []
+    | some p => p.2 :: exitLive acts ids fuel (effect ids { s with pairs := s.pairs.dropLast } (acts p.2))
+
+end AtExit
